@@ -15,7 +15,7 @@ PASSIVE_UNDER_TESTS = True
 RULE = ("cases = h / h2 / h3 on (n,d) data, d=2..4, per-axis bins of different classes and counts (edges, gapped pairs, "
         "right-open / right-closed binning objects, int, method names with per-axis argument lists), every column in its own "
         "range so that an axis mix-up is visible; rows with NaN (dropped) and with infinite coordinates of either / both signs (missed); non-trivial = asymmetric shape, >= 1 coordinate exactly on a last edge, "
-        ">= 1 row outside the bins; distinct by hash of (bins, rows, weights, entry form)")
+        ">= 1 row outside the bins; distinct by hash of (bins, rows, weights, entry form) Plus `dtype_case`: a content type given at construction (int16 / int32 / float32 / int64 / float64; 33000-70000 equal rows in one cell, integer weights up to 40000 and beyond 2**32, dyadic float weights): exact sums, refusal or widening instead of wrap-around, missed weight never negative.")
 ASSUMPTIONS = [
     "membership is judged on the reported edges and on each binning's own includes_right_edge flag",
     "weights are small dyadic rationals (exact sums, compared with ==); a general-float class is compared within n*eps",
